@@ -535,8 +535,18 @@ unsafe impl GlobalAlloc for CountingAlloc {
 // ---------------------------------------------------------------------------------------------
 // Panic capture with a silent hook
 // ---------------------------------------------------------------------------------------------
+pub static LAST_PANIC_LOC: Mutex<String> = Mutex::new(String::new());
 pub fn silence_panics() {
-    std::panic::set_hook(Box::new(|_| {}));
+    std::panic::set_hook(Box::new(|info| {
+        if let Some(l) = info.location() {
+            if let Ok(mut g) = LAST_PANIC_LOC.try_lock() {
+                *g = format!("{}:{}", l.file(), l.line());
+            }
+        }
+    }));
+}
+pub fn last_panic_loc() -> String {
+    LAST_PANIC_LOC.lock().map(|g| g.clone()).unwrap_or_default()
 }
 pub fn catch<R>(f: impl FnOnce() -> R) -> Result<R, String> {
     match std::panic::catch_unwind(std::panic::AssertUnwindSafe(f)) {
